@@ -133,6 +133,17 @@ namespace vh
       for (auto e : row)
         o.d(e);
     }
+    // ... and the same through a const reference (ConstProxy)
+    o.key("cext");
+    {
+      const DM& cm = m;
+      for (std::size_t x = 0; x < rows; ++x)
+      {
+        std::vector<double> row = cm[x];
+        for (auto e : row)
+          o.d(e);
+      }
+    }
     o.key("axpy");
     DM y(rows, cols, 1.0);
     y.Axpy(2.0, m);
@@ -1754,10 +1765,16 @@ namespace vh
     {
       // the same builder was used before for another mechanism of the same size (other rate-constant types, parameters
       // and labels): SetReactions then ASSIGNS the new processes over the old ones
+      // ... element by element, down to Species::operator=: the decoy reactions have a third body where the real
+      // ones have the ordinary species, and at least as many reactants
       std::vector<micm::Process> decoy;
+      micm::Species tb0("X0"), tb1("X1"), tb2("X2");
+      tb0.SetThirdBody();
+      tb1.SetThirdBody();
+      tb2.SetThirdBody();
       for (std::size_t i = 0; i < nproc; ++i)
         decoy.push_back(micm::Process::Create()
-                            .SetReactants({ a })
+                            .SetReactants(i % 3 == 2 ? std::vector<micm::Species>{ a } : std::vector<micm::Species>{ tb0, a, tb1, tb2 })
                             .SetRateConstant(i % 2 ? micm::UserDefinedRateConstant({ .label_ = "decoy" + std::to_string(i), .scaling_factor_ = 7.0 })
                                                    : micm::UserDefinedRateConstant({ .label_ = "other" + std::to_string(i), .scaling_factor_ = 0.125 })));
       auto first = builder.SetReactions(decoy).Build();
@@ -1793,6 +1810,121 @@ namespace vh
     }
     o.key("k");
     printDense(o, state.rate_constants_);
+    return o.os.str();
+  }
+
+  // ---------------------------------------------------------------- copy-assignment between States of two solvers (C14, C17)
+  /// the same species, two solvers whose internal species orders differ (declaration order, and optionally the
+  /// Markowitz reordering for the second); every read is by name
+  template<std::size_t L>
+  std::string DenseCfg<L>::cpassign(Tok& t, std::size_t ns, std::size_t ncell)
+  {
+    using DM = typename DenseOf<L>::type;
+    using SM = SparseOf<L, false>;
+    bool reorder2 = t.nat() != 0;
+    auto perm1 = t.nats(ns);
+    auto perm2 = t.nats(ns);
+    auto vals1 = t.flts(ns * ncell);
+    auto vals2 = t.flts(ns * ncell);
+    std::size_t j = t.nat();
+    auto newv = t.flts(ncell);
+    double dt = t.flt();
+    auto name = [](std::size_t i) { return "s" + std::to_string(i); };
+    std::vector<micm::Species> sp1(ns), sp2(ns);
+    for (std::size_t i = 0; i < ns; ++i)
+    {
+      sp1[perm1[i]] = micm::Species(name(i));
+      sp2[perm2[i]] = micm::Species(name(i));
+    }
+    std::vector<micm::Process> procs;
+    for (std::size_t i = 0; i + 1 < ns; ++i)
+      procs.push_back(micm::Process::Create()
+                          .SetReactants({ micm::Species(name(i)) })
+                          .SetProducts({ micm::Yield(micm::Species(name(i + 1)), 1.0) })
+                          .SetRateConstant(micm::ArrheniusRateConstant({ .A_ = 0.5 + (double)i })));
+    procs.push_back(micm::Process::Create()
+                        .SetReactants({ micm::Species(name(ns - 1)), micm::Species(name(0)) })
+                        .SetProducts({ micm::Yield(micm::Species(name(ns / 2)), 1.0) })
+                        .SetRateConstant(micm::ArrheniusRateConstant({ .A_ = 0.25 })));
+    using B = micm::CpuSolverBuilder<micm::RosenbrockSolverParameters, DM, SM>;
+    auto solver1 = B(micm::RosenbrockSolverParameters::ThreeStageRosenbrockParameters())
+                       .SetSystem(micm::System(micm::SystemParameters{ .gas_phase_ = micm::Phase{ sp1 } }))
+                       .SetReactions(procs)
+                       .SetNumberOfGridCells(ncell)
+                       .SetReorderState(false)
+                       .Build();
+    auto solver2 = B(micm::RosenbrockSolverParameters::ThreeStageRosenbrockParameters())
+                       .SetSystem(micm::System(micm::SystemParameters{ .gas_phase_ = micm::Phase{ sp2 } }))
+                       .SetReactions(procs)
+                       .SetNumberOfGridCells(ncell)
+                       .SetReorderState(reorder2)
+                       .Build();
+    auto fill = [&](auto& st, const std::vector<double>& vals)
+    {
+      for (std::size_t i = 0; i < ns; ++i)
+        st.SetConcentration(micm::Species(name(i)), std::vector<double>(vals.begin() + i * ncell, vals.begin() + (i + 1) * ncell));
+      for (auto& c : st.conditions_)
+      {
+        c.temperature_ = 280.0;
+        c.pressure_ = 90000.0;
+        c.air_density_ = 40.0;
+      }
+    };
+    auto a = solver1.GetState();
+    auto b = solver2.GetState();
+    fill(a, vals1);
+    fill(b, vals2);
+    b = a;  // copy assignment onto a State with another name map
+    auto a2 = solver1.GetState();
+    auto bsrc = solver2.GetState();
+    fill(a2, vals1);
+    fill(bsrc, vals2);
+    a2 = bsrc;
+    Out o;
+    o.os << "cpassign";
+    auto consistent = [&](auto& x, auto& src)
+    {
+      if (x.variable_map_ != src.variable_map_ || x.variable_names_ != src.variable_names_)
+        return false;
+      for (auto& [nm, idx] : x.variable_map_)
+        if (idx >= x.variable_names_.size() || x.variable_names_[idx] != nm)
+          return false;
+      return true;
+    };
+    o.key("cons");
+    o.n(consistent(b, a) && consistent(a2, bsrc) ? 1 : 0);
+    auto byName = [&](auto& st)
+    {
+      for (std::size_t i = 0; i < ns; ++i)
+        for (std::size_t c = 0; c < ncell; ++c)
+          o.d(st.variables_[c][st.variable_map_.at(name(i))]);
+    };
+    o.key("byname");
+    byName(b);
+    o.key("rev");
+    byName(a2);
+    auto bset = b;
+    bset.SetConcentration(micm::Species(name(j)), newv);
+    o.key("after_a");
+    byName(a);
+    o.key("after_b");
+    byName(bset);
+    // the assigned State is a State of solver 1 now: solving it is solving a copy-constructed State
+    auto ref = a;
+    solver1.CalculateRateConstants(ref);
+    auto r1 = solver1.Solve(dt, ref);
+    solver1.CalculateRateConstants(b);
+    auto r2 = solver1.Solve(dt, b);
+    bool same = r1.state_ == r2.state_ && r1.stats_.number_of_steps_ == r2.stats_.number_of_steps_;
+    for (std::size_t i = 0; i < ns && same; ++i)
+      for (std::size_t c = 0; c < ncell; ++c)
+      {
+        double x = ref.variables_[c][ref.variable_map_.at(name(i))], y = b.variables_[c][b.variable_map_.at(name(i))];
+        if (std::memcmp(&x, &y, sizeof x) != 0)
+          same = false;
+      }
+    o.key("solve_same");
+    o.n(same ? 1 : 0);
     return o.os.str();
   }
 
